@@ -747,6 +747,39 @@ def correspondence(ctx, n_random, n_ctx, use_reference=False, broken=None):
     return nviol + len(tie_errors) + len(build_fail)
 
 
+def replay(ctx, path):
+    """re-run exactly the recorded case (program, flags, variable values, input bytes) on the current tree"""
+    rec = json.load(open(path))
+    if "program" not in rec or "command" not in rec:
+        print("replay: %s records no runnable input (%s)" % (path, rec.get("what")))
+        return 2
+    I = export.Interner()
+    res = nm.compile_source(rec["program"], rec.get("flags", []), want_c=True, name="prog", interner=I)
+    if res["verdict"] != "ok":
+        print("replay: the program is now %s: %s" % (res["verdict"], res["message"][:200]))
+        return 1
+    m = res["machines"]["post_optimize"]
+    cp = cdrv.CfgPrinter(m, I, rec.get("flags", []))
+    P = {"ok": True, "m": m, "I": I, "cp": cp, "c": res["c"], "h": res["h"], "flags": rec.get("flags", []), "src": rec["program"]}
+    wd = os.path.join(BUILD, "c14_replay")
+    P = cdrv.prepare_build(P, wd)
+    if not P["ok"]:
+        print("replay: generated C does not build: %s" % P.get("build_output"))
+        return 1
+    rc, lines, err = cdrv.run_c(wd, "%s\n%s\n" % (rec["init"], rec["command"]), timeout=20)
+    shutil.rmtree(wd, ignore_errors=True)
+    obs = parse_outs(lines[0], cp) if lines else None
+    exp = rec.get("expected", {})
+    got = {k: (obs.get(k) if obs else None) for k in exp}
+    got = {k: (int(v) if isinstance(exp[k], int) and v is not None and re.fullmatch(r"-?\d+", str(v)) else v) for k, v in got.items()}
+    print("expression: [%s]" % rec.get("expression"))
+    print("expected (C arithmetic on the source text): %s" % exp)
+    print("observed (generated parser, current tree):  %s" % got)
+    same = exp == got
+    print("REPRODUCED" if not same else "no longer reproduces")
+    return 0 if same else 1
+
+
 def run(ctx):
     import grammar2coq
     quick = ctx.tier == "quick"
